@@ -2,10 +2,9 @@
   `honeycomb-kernels/src/cell_insertion/vertices.rs`: `insert_vertex_on_edge`,
   `insert_vertices_on_edge`, composed from the core operations exactly as the Rust composes them.
 
-  Faithful detail: the spare darts are tested with the NON-transactional `cmap.is_free(..)`
-  (`FIXME: is_free should be transactional` in the source): it reads the *committed* map, not the
-  transaction's log.  The kernels therefore take the committed map `c` (the map as it was when the
-  enclosing transaction started) as an extra parameter and evaluate `is_free` on it.
+  The spare darts are tested with the private `is_free_transac` (β0, β1, β2 read through the
+  transaction, short-circuit in that order) since /repo cc2bcd4; before, the kernels used the
+  non-transactional `cmap.is_free` (finding D3, fixed).
 -/
 import Honeycomb.Model.Ops2
 import Honeycomb.Model.Kernels.Geom2
@@ -18,22 +17,27 @@ def errUndefinedEdge : Err := ⟨"UndefinedEdge", []⟩
 def errInvalidDarts (msg : String) : Err := ⟨"InvalidDarts " ++ msg, []⟩
 def errWrongAmountDarts (expected got : Nat) : Err := ⟨"WrongAmountDarts", [expected, got]⟩
 
-/-- `cmap.is_free(d)` on the committed map (index out of range ⇒ panic) -/
-def isFreeNT {X : Type} (c : Map X) (d : Nat) : P X Bool :=
-  if d < c.n then pure (c.isFree 3 d) else Prog.panic
+/-- `is_free_transac(cmap, trans, d)`: `β0(d) == 0 && β1(d) == 0 && β2(d) == 0`, short-circuit -/
+def isFreeTx {X : Type} (d : Nat) : P X Bool := do
+  let b0 ← rB 0 d
+  if b0 ≠ 0 then pure false else
+  let b1 ← rB 1 d
+  if b1 ≠ 0 then pure false else
+  let b2 ← rB 2 d
+  pure (decide (b2 = 0))
 
-/-- `d == NULL_DART_ID || !cmap.is_free(d)` -/
-def nullOrNotFreeNT {X : Type} (c : Map X) (d : Nat) : P X Bool :=
+/-- `d == NULL_DART_ID || !is_free_transac(cmap, trans, d)?` -/
+def nullOrNotFreeTx {X : Type} (d : Nat) : P X Bool :=
   if d = 0 then pure true else do
-    let f ← isFreeNT c d
+    let f ← isFreeTx d
     pure (!f)
 
-/-- `new_darts.iter().any(|d| !cmap.is_free(*d))` (left to right, short-circuit) -/
-def anyNotFreeNT {X : Type} (c : Map X) : List Nat → P X Bool
+/-- `for d in new_darts { if !is_free_transac(cmap, trans, *d)? { abort(..) } }`: is some dart not free? -/
+def anyNotFreeTx {X : Type} : List Nat → P X Bool
   | [] => pure false
   | d :: ds => do
-      let f ← isFreeNT c d
-      if !f then pure true else anyNotFreeNT c ds
+      let f ← isFreeTx d
+      if !f then pure true else anyNotFreeTx ds
 
 /-- `if cond { op }` -/
 def whenP {X : Type} (cond : Bool) (p : P X Unit) : P X Unit := if cond then p else pure ()
@@ -81,13 +85,13 @@ def withEnds {α : Type} (v1 v2 : Option Val) (k : Val → Val → P Val α) : P
   | _, _ => abort errUndefinedEdge
 
 /-- `insert_vertex_on_edge(cmap, trans, edge_id, (nd1, nd2), midpoint_vertex)` -/
-def insertVertexOnEdge (n : Nat) (c : Map Val) (e nd1 nd2 : Nat) (t : Option Rat) : P Val Unit := do
+def insertVertexOnEdge (n : Nat) (e nd1 nd2 : Nat) (t : Option Rat) : P Val Unit := do
   if optOutOfUnit t then abort errVertexBound else
   let base1 := e
   let base2 ← rB 2 base1
-  let bad1 ← nullOrNotFreeNT c nd1
+  let bad1 ← nullOrNotFreeTx nd1
   if bad1 then abort (errInvalidDarts "first-dart-is-null-or-not-free") else
-  let bad2 ← (if base2 ≠ 0 then nullOrNotFreeNT c nd2 else pure false)
+  let bad2 ← (if base2 ≠ 0 then nullOrNotFreeTx nd2 else pure false)
   if bad2 then abort (errInvalidDarts "second-dart-is-null-or-not-free") else
   let base2 ← rB 2 base1
   if base2 = 0 then do
@@ -106,13 +110,20 @@ def insertVertexOnEdge (n : Nat) (c : Map Val) (e nd1 nd2 : Nat) (t : Option Rat
     let v2 ← rA 0 vid2
     withEnds v1 v2 fun v1 v2 => insertVertexBody2 n v1 v2 base1 base2 b1d1_old b1d2_old nd1 nd2 t
 
-/-- first side: `for (&t, &new_d) in ts.zip(darts_fh) { link::<1>(prev, new_d); write_vertex(new_d, v1 + seg * t); prev = new_d }` -/
-def chainFirst (v1 v2 : Val) : Nat → List (Rat × Nat) → P Val Nat
+/-- first side: `for &new_d in darts_fh { link::<1>(prev, new_d); prev = new_d }` -/
+def chainFirst : Nat → List Nat → P Val Nat
   | prev, [] => pure prev
-  | prev, (t, nd) :: rest => do
+  | prev, nd :: rest => do
       oneLinkCore prev nd
-      let _ ← writeVtx nd (placeVal v1 v2 (some t))
-      chainFirst v1 v2 nd rest
+      chainFirst nd rest
+
+/-- `for (&t, &new_d) in ts.zip(darts_fh) { vid = vertex_id_transac(new_d); write_vertex(vid, v1 + seg * t) }` -/
+def placeVertices (n : Nat) (v1 v2 : Val) : List (Rat × Nat) → P Val Unit
+  | [] => pure ()
+  | (t, nd) :: rest => do
+      let vid ← vertexId2 n nd
+      let _ ← writeVtx vid (placeVal v1 v2 (some t))
+      placeVertices n v1 v2 rest
 
 /-- second side: `for (d, new_d) in darts_fh.rev().zip(darts_sh) { link::<2>(prev, d); link::<1>(prev, new_d); prev = new_d }` -/
 def chainSecond : Nat → List (Nat × Nat) → P Val Nat
@@ -131,14 +142,15 @@ def insertVerticesSide2 (base1 base2 : Nat) (fh sh : List Nat) : P Val Unit := d
   iLinkCore 2 prev base1
 
 /-- the editing part of `insert_vertices_on_edge` (after validation and reads) -/
-def insertVerticesBody (v1 v2 : Val) (base1 base2 b1d1_old : Nat) (fh sh : List Nat) (ts : List Rat) :
+def insertVerticesBody (n : Nat) (v1 v2 : Val) (base1 base2 b1d1_old : Nat) (fh sh : List Nat) (ts : List Rat) :
     P Val Unit := do
   whenP (b1d1_old ≠ 0) (oneUnlinkCore base1)
   whenP (base2 ≠ 0) (iUnlinkCore 2 base1)
-  let prev ← chainFirst v1 v2 base1 (ts.zip fh)
-  -- unconditional, also when `b1d1_old` is the null dart (D8)
-  oneLinkCore prev b1d1_old
+  let prev ← chainFirst base1 fh
+  whenP (b1d1_old ≠ 0) (oneLinkCore prev b1d1_old)
   whenP (base2 ≠ 0) (insertVerticesSide2 base1 base2 fh sh)
+  -- the new points, under their vertex identifiers, once both sides are linked
+  placeVertices n v1 v2 (ts.zip fh)
 
 /-- the dart whose vertex is the second end point:
     `if b1d1_old != 0 { b1d1_old } else if base_dart2 != 0 { base_dart2 } else { abort(UndefinedEdge)? }` -/
@@ -148,11 +160,11 @@ def secondEnd (b1d1_old base2 : Nat) : P Val Nat :=
   else abort errUndefinedEdge
 
 /-- `insert_vertices_on_edge(cmap, trans, edge_id, new_darts, midpoint_vertices)` -/
-def insertVerticesOnEdge (n : Nat) (c : Map Val) (e : Nat) (nds : List Nat) (ts : List Rat) : P Val Unit := do
+def insertVerticesOnEdge (n : Nat) (e : Nat) (nds : List Nat) (ts : List Rat) : P Val Unit := do
   let nt := ts.length
   let nd := nds.length
   if nd ≠ 2 * nt then abort (errWrongAmountDarts (2 * nt) nd) else
-  let notFree ← anyNotFreeNT c nds
+  let notFree ← anyNotFreeTx nds
   if notFree then abort (errInvalidDarts "one-dart-is-not-free") else
   let fh := nds.take nt
   let sh := nds.drop nt
@@ -168,6 +180,6 @@ def insertVerticesOnEdge (n : Nat) (c : Map Val) (e : Nat) (nds : List Nat) (ts 
   let vid2 ← vertexId2 n tgt
   let v1 ← rA 0 vid1
   let v2 ← rA 0 vid2
-  withEnds v1 v2 fun v1 v2 => insertVerticesBody v1 v2 base1 base2 b1d1_old fh sh ts
+  withEnds v1 v2 fun v1 v2 => insertVerticesBody n v1 v2 base1 base2 b1d1_old fh sh ts
 
 end HC
